@@ -58,7 +58,7 @@ Qed.
 
 (* ---------- used_generics: with distinct names, exactly the declared entries whose NAME some unskipped field type mentions ---------- *)
 Definition key_used (tys: list ty) (k: list tt) : bool :=
-  existsb (fun t => tts_eqb k (own_path t) || existsb (fun w => tts_eqb k w) (wraps_list t)
+  existsb (fun t => names_tok k (own_path t) || existsb (fun w => names_tok k w) (wraps_list t)
                     || existsb (fun a => tts_eqb k [TId a]) (used_lifetimes t) || existsb (fun v => tts_eqb k v) (array_lens t)) tys.
 
 Lemma find_key_unique (gens: list generic) x : NoDup (map gkey gens) -> In x gens -> find (fun y => tts_eqb (gkey y) (gkey x)) gens = Some x.
@@ -400,8 +400,12 @@ Definition mentions (p: gparam) (t: g) : Prop :=
   match p with PLife a _ => In a (lifetimes_of t) | PType n _ _ => used_spec n t = true | PConst n _ _ => In [TId n] (lens_of t) end.
 Lemma existsb_ext' {A} (f g: A -> bool) (H: forall x, f x = g x) l : existsb f l = existsb g l.
 Proof. induction l as [|x l IH]; [reflexivity|]. cbn. rewrite H, IH. reflexivity. Qed.
-Lemma is_name_tts n toks : is_name n toks = tts_eqb [TId n] toks.
-Proof. destruct toks as [|[x|p|l|dl ts] [|y r]]; cbn; try reflexivity; rewrite ?andb_true_r, ?andb_false_r; try reflexivity. apply String.eqb_sym. Qed.
+Lemma is_name_tts n toks : is_name n toks = names_tok [TId n] toks.
+Proof.
+  destruct toks as [|[x|p|l|dl ts] r]; try reflexivity. cbn [is_name names_tok tt_eqb]. rewrite (String.eqb_sym x n).
+  destruct r as [|[y|[]|l|dl ts] r']; cbn [names_tok]; rewrite ?andb_true_r, ?andb_false_r; try reflexivity.
+  destruct r' as [|[y|[]|l|dl ts] r'']; cbn [names_tok]; rewrite ?andb_true_r, ?andb_false_r; reflexivity.
+Qed.
 Lemma key_used_mentions fuel p f (d: gdecl) : wf_field fuel f -> In f (unskipped d) -> mentions p (gf_ty f) -> key_used (field_types d) (param_key p) = true.
 Proof.
   intros (_ & _ & Wt & _) Hf Hm. unfold key_used. apply existsb_exists. exists (embed (gf_ty f)). split; [unfold field_types; apply (in_map (fun f => embed (gf_ty f))); exact Hf|].
@@ -410,7 +414,7 @@ Proof.
     { apply existsb_exists. exists a. split; [rewrite (used_lifetimes_exact _ Wt); exact Hm|apply tts_eqb_refl]. }
     rewrite E. rewrite !orb_true_r. reflexivity.
   - rewrite <- (param_used_exact n _ Wt) in Hm. unfold param_used in Hm. rewrite is_name_tts in Hm. unfold own_path.
-    rewrite (existsb_ext' (is_name n) (fun w => tts_eqb [TId n] w) (is_name_tts n)) in Hm. rewrite Hm. reflexivity.
+    rewrite (existsb_ext' (is_name n) (fun w => names_tok [TId n] w) (is_name_tts n)) in Hm. rewrite Hm. reflexivity.
   - assert (E: existsb (fun v => tts_eqb [TId n] v) (array_lens (embed (gf_ty f))) = true).
     { apply existsb_exists. exists [TId n]. split; [rewrite (array_lens_exact _ Wt); exact Hm|apply tts_eqb_refl]. }
     rewrite E. rewrite !orb_true_r. reflexivity.
